@@ -27,8 +27,14 @@ def tv(x, ids):
     if isinstance(x, list):
         return {"list": [tv(v, ids) for v in x]}
     if isinstance(x, Generic):
-        return {"generic": [[k, tv(getattr(x, k), ids)] for k in x.model_fields_set]}
+        return {"generic": [[k, tv(field_value(x, k), ids)] for k in x.model_fields_set]}
     return "other"
+
+
+def field_value(model, k):
+    """the stored value of a property (a property may be named like an attribute of the model class)"""
+    extra = model.model_extra or {}
+    return extra[k] if k in extra else getattr(model, k)
 
 
 def top_wrapper_of(res):
@@ -60,7 +66,8 @@ def plant(rng, docs, depth=0):
         return [plant(rng, p, depth + 1) for p in parts]
     obj = {}
     for i, p in enumerate(parts):
-        key = rng.choice(["PolicyDocument", "Policies", "Config", "Nested", "Items", "AccessPolicy"]) + (str(i) if i else "")
+        # (the last four are also names of methods of pydantic's BaseModel: a property may be called anything)
+        key = rng.choice(["PolicyDocument", "Policies", "Config", "Nested", "Items", "AccessPolicy", "copy", "json", "schema", "dict"]) + (str(i) if i else "")
         obj[key] = plant(rng, p, depth + 1)
     if rng.random() < 0.3:
         obj["Other"] = rng.choice(["text", 3, ["a", "b"]])
@@ -164,7 +171,7 @@ def run(report, tier, seed, driver, proofs_ok):
             continue
         ids = {}
         props = r.Properties
-        fields = {"generic": [[k, tv(getattr(props, k), ids)] for k in (props.model_fields_set if props is not None else [])]}
+        fields = {"generic": [[k, tv(field_value(props, k), ids)] for k in (props.model_fields_set if props is not None else [])]}
         impl_found = sorted([[None if f.name is None else str(f.name), ids.setdefault(id(f.policy_document), len(ids))] for f in found], key=lambda x: (x[1], str(x[0])))
         generic_route = type(r).policy_documents is type(r).__mro__[-4].policy_documents if False else (type(r).__name__ in ("GenericResource", "KMSKey", "ESDomain", "OpenSearchDomain"))
         rows.append((res, docs, encoded, found, conds, impl_found, generic_route))
